@@ -9,18 +9,21 @@ is any list of messages (`Op`), rejected messages leave the state unchanged.
   (/ external-id) index entries, no dangling entries; payments listed under their current
   target only) holds after EVERY history; order ids strictly increase; external ids are unique
   per market; payments are unique per (source, external id); market ids are never reused.
-* Part B: what the prefix scans behind the lookups return.  By market and by owner: exactly the
-  open orders of that market / owner, each once.  By asset: NOT exact — `byAsset_not_exact` is a
-  concrete history in which the scan for `apple` returns an `apples` order (the asset index
-  key has no terminator, keys.go:765); `byAsset_exact_partial` is the exact statement under
-  the hypothesis that no listed asset denom is a proper prefix of another.
+* Part B: what the prefix scans behind the lookups return.  By market, by owner and by asset:
+  exactly the open orders of that market / owner / asset denom, each once (`byAsset_exact` is
+  unconditional since commit bdda88322 — an index entry counts only if exactly the 8 order-id
+  bytes follow the prefix).  History: `byAsset_lists_prefix_denoms_before_fix` /
+  `byAsset_not_exact_before_fix` are about the pre-fix definitions (`…PreFix`): the scan for
+  `apple` returned `apples` orders because the asset index key has no terminator (keys.go:765).
 * Part C: paging.  For every strictly sorted entry list, limit ≥ 1, hit filter, after-order
   bound and direction, following `next_key` — or advancing `offset` — through
   `filteredPaginateAfterOrder` returns every matching entry exactly once, in order, and stops.
-  Two clauses fail on the code and are proved false on witnesses: `after_order_id = MaxUint64`
-  with `reverse` lists everything (`after_max_reverse_lists_all`), and reverse paging through a
-  source's payments drops the payment with the empty external id
-  (`paysrc_reverse_paging_skips_empty_external_id`).
+  The after-order bound is characterised for EVERY `after_order_id` (`after_bound`,
+  `after_bound_exact`): since commit 9462d3706 the reverse branch has the same overflow guard as
+  the forward one (at MaxUint64 the iterator starts AT key MaxUint64);
+  `after_max_reverse_lists_all_before_fix` is the historical witness.  One clause still fails on
+  the code and is proved false on a witness: reverse paging through a source's payments drops
+  the payment with the empty external id (`paysrc_reverse_paging_skips_empty_external_id`).
 
 The only hypothesis carried by Part A is that fewer than 2^64 orders are created (the uint64
 counter does not wrap).
@@ -319,7 +322,7 @@ theorem byMarket_exact {s : Store} (hinv : IndexInv s) (m : UInt32) (id : UInt64
   constructor
   · intro h
     obtain ⟨⟨id', b⟩, hmem, rfl⟩ := List.mem_map.mp h
-    obtain ⟨e, he, hv, hp⟩ := mem_iterateOrderIndex.mp hmem
+    obtain ⟨e, he, _, hv, hp⟩ := mem_iterateOrderIndex.mp hmem
     obtain ⟨o, ho, hm⟩ := scan_entry_live hinv he rfl
     rcases mem_orderIndexEntries.mp hm with hq | hq | hq | ⟨_, hq⟩ <;>
       simp [prefixMarketToOrder, idxMarketToOrder, idxAddressToOrder, idxAssetToOrder, idxMarketExternalIDToOrder] at hq
@@ -332,7 +335,7 @@ theorem byMarket_exact {s : Store} (hinv : IndexInv s) (m : UInt32) (id : UInt64
     have hid := hh.record_id ho
     subst hid
     have := hh.indexed o.id o ho _ (mem_orderIndexEntries.mpr (Or.inl rfl))
-    refine List.mem_map.mpr ⟨(o.id, o.tb), mem_iterateOrderIndex.mpr ⟨(u64Bz o.id, .tbyte o.tb), ?_, rfl,
+    refine List.mem_map.mpr ⟨(o.id, o.tb), mem_iterateOrderIndex.mpr ⟨(u64Bz o.id, .tbyte o.tb), ?_, rfl, rfl,
       parseIndexKeySuffixOrderID_u64Bz _⟩, rfl⟩
     rw [mem_prefixStore]
     exact this
@@ -345,7 +348,7 @@ theorem byOwner_exact {s : Store} (hinv : IndexInv s) (a : Bytes) (id : UInt64) 
   constructor
   · intro h
     obtain ⟨⟨id', b⟩, hmem, rfl⟩ := List.mem_map.mp h
-    obtain ⟨e, he, hv, hp⟩ := mem_iterateOrderIndex.mp hmem
+    obtain ⟨e, he, _, hv, hp⟩ := mem_iterateOrderIndex.mp hmem
     obtain ⟨o, ho, hm⟩ := scan_entry_live hinv he rfl
     rcases mem_orderIndexEntries.mp hm with hq | hq | hq | ⟨_, hq⟩ <;>
       simp [prefixAddressToOrder, idxMarketToOrder, idxAddressToOrder, idxAssetToOrder, idxMarketExternalIDToOrder] at hq
@@ -358,22 +361,51 @@ theorem byOwner_exact {s : Store} (hinv : IndexInv s) (a : Bytes) (id : UInt64) 
     have hid := hh.record_id ho
     subst hid
     have := hh.indexed o.id o ho _ (mem_orderIndexEntries.mpr (Or.inr (Or.inl rfl)))
-    refine List.mem_map.mpr ⟨(o.id, o.tb), mem_iterateOrderIndex.mpr ⟨(u64Bz o.id, .tbyte o.tb), ?_, rfl,
+    refine List.mem_map.mpr ⟨(o.id, o.tb), mem_iterateOrderIndex.mpr ⟨(u64Bz o.id, .tbyte o.tb), ?_, rfl, rfl,
       parseIndexKeySuffixOrderID_u64Bz _⟩, rfl⟩
     rw [mem_prefixStore]
     exact this
 
-/-- **By-asset lookup: what it REALLY returns** — the open orders whose asset denom STARTS WITH the
-queried denom (the index key is `0x05 | denom | id` with no terminator and the id is read from the
-last 8 bytes). -/
-theorem byAsset_lists_prefix_denoms {s : Store} (hinv : IndexInv s) (d : Bytes) (id : UInt64) :
+/-- **By-asset lookup: exactly the open orders with that asset denom** (unconditional since commit
+bdda88322: an index entry counts only if exactly the 8 order-id bytes follow the prefix, so the
+entries of a longer denom sharing the prefix are skipped). -/
+theorem byAsset_exact {s : Store} (hinv : IndexInv s) (d : Bytes) (id : UInt64) :
     id ∈ (iterateOrderIndex s (prefixAssetToOrder d)).map (·.1) ↔
+      ∃ o, s.get (keyOrder id) = some (.order o) ∧ o.assetDenom = d := by
+  have hh := (indexInvF_iff.mp hinv).1
+  constructor
+  · intro h
+    obtain ⟨⟨id', b⟩, hmem, rfl⟩ := List.mem_map.mp h
+    obtain ⟨e, he, h8, hv, hp⟩ := mem_iterateOrderIndex.mp hmem
+    obtain ⟨o, ho, hm⟩ := scan_entry_live hinv he rfl
+    rcases mem_orderIndexEntries.mp hm with hq | hq | hq | ⟨_, hq⟩ <;>
+      simp [prefixAssetToOrder, idxMarketToOrder, idxAddressToOrder, idxAssetToOrder, idxMarketExternalIDToOrder] at hq
+    obtain ⟨hk, _⟩ := hq
+    have := List.append_inj' hk (by rw [h8, u64Bz_length])
+    rw [this.2, parseIndexKeySuffixOrderID_u64Bz] at hp
+    cases hp
+    exact ⟨o, ho, this.1.symm⟩
+  · rintro ⟨o, ho, rfl⟩
+    have hid := hh.record_id ho
+    subst hid
+    have := hh.indexed o.id o ho _ (mem_orderIndexEntries.mpr (Or.inr (Or.inr (Or.inl rfl))))
+    refine List.mem_map.mpr ⟨(o.id, o.tb), mem_iterateOrderIndex.mpr ⟨(u64Bz o.id, .tbyte o.tb), ?_, rfl, rfl,
+      parseIndexKeySuffixOrderID_u64Bz _⟩, rfl⟩
+    rw [mem_prefixStore]; exact this
+
+/-! #### history: the by-asset lookup before commit bdda88322 -/
+
+/-- BEFORE THE FIX (commit bdda88322, `iterateOrderIndexPreFix` / `indexHitPreFix`): the by-asset scan
+returned the open orders whose asset denom STARTS WITH the queried denom (the index key is
+`0x05 | denom | id` with no terminator and the id was read from the last 8 bytes of any suffix). -/
+theorem byAsset_lists_prefix_denoms_before_fix {s : Store} (hinv : IndexInv s) (d : Bytes) (id : UInt64) :
+    id ∈ (iterateOrderIndexPreFix s (prefixAssetToOrder d)).map (·.1) ↔
       ∃ o, s.get (keyOrder id) = some (.order o) ∧ d <+: o.assetDenom := by
   have hh := (indexInvF_iff.mp hinv).1
   constructor
   · intro h
     obtain ⟨⟨id', b⟩, hmem, rfl⟩ := List.mem_map.mp h
-    obtain ⟨e, he, hv, hp⟩ := mem_iterateOrderIndex.mp hmem
+    obtain ⟨e, he, hv, hp⟩ := mem_iterateOrderIndexPreFix.mp hmem
     obtain ⟨o, ho, hm⟩ := scan_entry_live hinv he rfl
     have hlen : 8 ≤ e.1.length := by
       unfold parseIndexKeySuffixOrderID at hp
@@ -400,23 +432,11 @@ theorem byAsset_lists_prefix_denoms {s : Store} (hinv : IndexInv s) (d : Bytes) 
     have hid := hh.record_id ho
     subst hid
     have := hh.indexed o.id o ho _ (mem_orderIndexEntries.mpr (Or.inr (Or.inr (Or.inl rfl))))
-    refine List.mem_map.mpr ⟨(o.id, o.tb), mem_iterateOrderIndex.mpr ⟨(t ++ u64Bz o.id, .tbyte o.tb), ?_, rfl,
+    refine List.mem_map.mpr ⟨(o.id, o.tb), mem_iterateOrderIndexPreFix.mpr ⟨(t ++ u64Bz o.id, .tbyte o.tb), ?_, rfl,
       parseIndexKeySuffixOrderID_append _ _⟩, rfl⟩
     rw [mem_prefixStore]
     simp only [prefixAssetToOrder, idxAssetToOrder, ← hden, List.cons_append, List.append_assoc] at this ⊢
     exact this
-
-/-- Full statement that the code does NOT satisfy:
-`∀ s, IndexInv s → ∀ d id, id listed for d ↔ ∃ o, live o at id ∧ o.assetDenom = d`.
-**byAsset_exact_partial**: it holds when no open order's asset denom has `d` as a PROPER prefix. -/
-theorem byAsset_exact_partial {s : Store} (hinv : IndexInv s) (d : Bytes)
-    (hnp : ∀ i o, s.get (keyOrder i) = some (.order o) → d <+: o.assetDenom → o.assetDenom = d) (id : UInt64) :
-    id ∈ (iterateOrderIndex s (prefixAssetToOrder d)).map (·.1) ↔
-      ∃ o, s.get (keyOrder id) = some (.order o) ∧ o.assetDenom = d := by
-  rw [byAsset_lists_prefix_denoms hinv]
-  constructor
-  · rintro ⟨o, ho, hp⟩; exact ⟨o, ho, hnp id o ho hp⟩
-  · rintro ⟨o, ho, rfl⟩; exact ⟨o, ho, List.prefix_refl _⟩
 
 /-- the history of the witness: one market, an ask for `apple` (order 1), an ask for `apples` (order 2) -/
 def appleHistory : List Op :=
@@ -424,57 +444,21 @@ def appleHistory : List Op :=
    .create ⟨0, false, 1, [65], [97, 112, 112, 108, 101], 5, [117, 115, 100], 10, [], true⟩,
    .create ⟨0, false, 1, [65], [97, 112, 112, 108, 101, 115], 5, [117, 115, 100], 10, [], true⟩]
 
-/-- **byAsset_not_exact**: the by-asset lookup is NOT exact.  After `appleHistory` the scan for asset
-`apple` lists order 2, whose asset denom is `apples`.  Replayed on the implementation
-(corpus/C13, known finding C13-asset-prefix). -/
-theorem byAsset_not_exact :
+/-- BEFORE THE FIX (commit bdda88322) the by-asset lookup was NOT exact: after `appleHistory` the
+historical scan for asset `apple` lists order 2, whose asset denom is `apples` (finding
+C13-asset-prefix, now fixed; the witness history stays in corpus/C13 and must pass). -/
+theorem byAsset_not_exact_before_fix :
     ¬ ∀ (ops : List Op) (d : Bytes) (id : UInt64),
-      id ∈ (iterateOrderIndex (run init ops).kv (prefixAssetToOrder d)).map (·.1) →
+      id ∈ (iterateOrderIndexPreFix (run init ops).kv (prefixAssetToOrder d)).map (·.1) →
       ∃ o, getOrderFromStore (run init ops).kv id = some o ∧ o.assetDenom = d := by
   intro h
   have h2 := h appleHistory [97, 112, 112, 108, 101] 2 (by decide)
   revert h2
   decide
 
-/-- the hypothesis of `byAsset_exact_partial` is met e.g. by the same store queried for `apples` -/
-example : ∀ i ∈ [1, 2], ∀ o, getOrderFromStore (run init appleHistory).kv i = some o →
-    [97, 112, 112, 108, 101, 115] <+: o.assetDenom → o.assetDenom = [97, 112, 112, 108, 101, 115] := by decide
-
-/-- **The proposed fix is correct**: if an index entry counts only when exactly 8 bytes follow the prefix
-(`iterateOrderIndexFixed`), the by-asset lookup is exact — no hypothesis on the denoms. -/
-theorem byAsset_exact_with_proposed_fix {s : Store} (hinv : IndexInv s) (d : Bytes) (id : UInt64) :
-    id ∈ (iterateOrderIndexFixed s (prefixAssetToOrder d)).map (·.1) ↔
-      ∃ o, s.get (keyOrder id) = some (.order o) ∧ o.assetDenom = d := by
-  have hh := (indexInvF_iff.mp hinv).1
-  unfold iterateOrderIndexFixed
-  constructor
-  · intro h
-    obtain ⟨⟨id', b⟩, hmem, rfl⟩ := List.mem_map.mp h
-    obtain ⟨e, he, hf⟩ := List.mem_filterMap.mp hmem
-    split_ifs at hf with h8
-    split at hf
-    · next b' id2 hv hp =>
-      cases hf
-      obtain ⟨o, ho, hm⟩ := scan_entry_live hinv he rfl
-      rcases mem_orderIndexEntries.mp hm with hq | hq | hq | ⟨_, hq⟩ <;>
-        simp [prefixAssetToOrder, idxMarketToOrder, idxAddressToOrder, idxAssetToOrder, idxMarketExternalIDToOrder] at hq
-      obtain ⟨hk, _⟩ := hq
-      have := List.append_inj' hk (by rw [h8, u64Bz_length])
-      rw [this.2, parseIndexKeySuffixOrderID_u64Bz] at hp
-      cases hp
-      exact ⟨o, ho, this.1.symm⟩
-    · cases hf
-  · rintro ⟨o, ho, rfl⟩
-    have hid := hh.record_id ho
-    subst hid
-    have := hh.indexed o.id o ho _ (mem_orderIndexEntries.mpr (Or.inr (Or.inr (Or.inl rfl))))
-    refine List.mem_map.mpr ⟨(o.id, o.tb), List.mem_filterMap.mpr ⟨(u64Bz o.id, .tbyte o.tb), ?_, ?_⟩, rfl⟩
-    · rw [mem_prefixStore]; exact this
-    · simp [u64Bz_length, parseIndexKeySuffixOrderID_u64Bz]
-
-/-- on the witness history the fixed scan for `apple` lists order 1 only -/
-example : iterateOrderIndexFixed (run init appleHistory).kv (prefixAssetToOrder [97, 112, 112, 108, 101]) = [(1, 0)] ∧
-    iterateOrderIndex (run init appleHistory).kv (prefixAssetToOrder [97, 112, 112, 108, 101]) = [(1, 0), (2, 0)] := by
+/-- on the witness history the current scan for `apple` lists order 1 only; the historical one listed 1 and 2 -/
+example : iterateOrderIndex (run init appleHistory).kv (prefixAssetToOrder [97, 112, 112, 108, 101]) = [(1, 0)] ∧
+    iterateOrderIndexPreFix (run init appleHistory).kv (prefixAssetToOrder [97, 112, 112, 108, 101]) = [(1, 0), (2, 0)] := by
   decide
 
 /-- each of the three lookups lists an open order at most once -/
@@ -577,7 +561,7 @@ theorem page_contents (ps : List Entry) (offset limit : Nat) (ct rev : Bool) (af
 /-- the hit filter of the order indexes never accepts an empty key (it needs the 8 id bytes) -/
 theorem indexHit_key_ne_nil (filter : Option Nat) (e : Entry) (h : indexHit filter e = true) : e.1 ≠ [] := by
   intro hk
-  unfold indexHit parseIndexKeySuffixOrderID at h
+  unfold indexHit at h
   simp [hk] at h
 
 /-- the iteration range is ordered: ascending keys forward, descending keys in reverse -/
@@ -587,39 +571,77 @@ theorem firstIter_sorted (ps : List Entry) (hs : Sorted ps) (after : UInt64) :
   simp only [Bool.false_eq_true, ↓reduceIte, List.reverse_reverse]
   exact ⟨hs.filter _, hs.filter _⟩
 
-/-- **The after-order bound is exact** for `after_order_id < MaxUint64`: an entry keyed by the 8 id bytes
-is in the iteration range iff its id is greater than `after` (`after = 0`: no bound). -/
-theorem after_bound_exact (ps : List Entry) (rev : Bool) (after : UInt64) (hmax : after ≠ 18446744073709551615)
-    (e : Entry) (id : UInt64) (hk : e.1 = u64Bz id) :
-    e ∈ firstIter ps rev after ↔ e ∈ ps ∧ (after = 0 ∨ after < id) := by
-  have hadd : (after + 1).toNat = after.toNat + 1 := by
-    have h1 := UInt64.toNat_lt after
-    have h2 : after.toNat ≠ 18446744073709551615 := fun h => hmax (UInt64.toNat_inj.mp h)
-    rw [UInt64.toNat_add]
-    have : (1 : UInt64).toNat = 1 := rfl
-    rw [this]; omega
-  have hin : ∀ r : Bool, inRange (lowerBound r after) none e.1 = true ↔ (after = 0 ∨ after < id) := by
-    intro r
-    unfold lowerBound
+/-- what "after `after`" means for an id: no bound for 0; strictly greater; and — mirroring both
+branches of `getOrderIterator`, which start AT key MaxUint64 when `after = MaxUint64` instead of
+overflowing — the id MaxUint64 itself when `after = MaxUint64` -/
+def AfterOK (after id : UInt64) : Prop :=
+  after = 0 ∨ after < id ∨ (after = 18446744073709551615 ∧ id = 18446744073709551615)
+
+/-- **What the after-order bound selects, for every `after_order_id` and both directions**: an entry keyed by
+the 8 id bytes is in the iteration range iff `AfterOK after id`. -/
+theorem after_bound (ps : List Entry) (rev : Bool) (after : UInt64) (e : Entry) (id : UInt64)
+    (hk : e.1 = u64Bz id) : e ∈ firstIter ps rev after ↔ e ∈ ps ∧ AfterOK after id := by
+  have hin : inRange (lowerBound after) none e.1 = true ↔ AfterOK after id := by
+    unfold lowerBound AfterOK
     by_cases h0 : after = 0
     · simp [h0, inRange]
-    · have : (if r = true then after + 1 else if after ≠ 18446744073709551615 then after + 1 else after) = after + 1 := by
-        cases r <;> simp [hmax]
-      simp only [ne_eq, h0, not_false_eq_true, ↓reduceIte, this, inRange_some_none, hk, u64Bz_le_iff, false_or]
-      rw [UInt64.le_iff_toNat_le, UInt64.lt_iff_toNat_lt, hadd]
-      omega
+    · by_cases hmax : after = 18446744073709551615
+      · subst hmax
+        simp only [ne_eq, h0, not_false_eq_true, ↓reduceIte, not_true_eq_false, inRange_some_none, hk, u64Bz_le_iff,
+          false_or, true_and]
+        have := UInt64.toNat_lt id
+        rw [UInt64.le_iff_toNat_le, UInt64.lt_iff_toNat_lt]
+        constructor
+        · intro h; right; apply UInt64.toNat_inj.mp; have : (18446744073709551615 : UInt64).toNat = 18446744073709551615 := rfl; omega
+        · rintro (h | rfl)
+          · have : (18446744073709551615 : UInt64).toNat = 18446744073709551615 := rfl; omega
+          · exact Nat.le_refl _
+      · have hadd : (after + 1).toNat = after.toNat + 1 := by
+          have h1 := UInt64.toNat_lt after
+          have h2 : after.toNat ≠ 18446744073709551615 := fun h => hmax (UInt64.toNat_inj.mp h)
+          rw [UInt64.toNat_add]
+          have : (1 : UInt64).toNat = 1 := rfl
+          rw [this]; omega
+        simp only [ne_eq, h0, not_false_eq_true, ↓reduceIte, hmax, inRange_some_none, hk, u64Bz_le_iff, false_or,
+          false_and, or_false]
+        rw [UInt64.le_iff_toNat_le, UInt64.lt_iff_toNat_lt, hadd]
+        omega
   unfold firstIter iter
   cases rev
-  · simp only [Bool.false_eq_true, ↓reduceIte, List.mem_filter, hin false]
-  · simp only [↓reduceIte, List.mem_reverse, List.mem_filter, hin true]
+  · simp only [Bool.false_eq_true, ↓reduceIte, List.mem_filter, hin]
+  · simp only [↓reduceIte, List.mem_reverse, List.mem_filter, hin]
 
-/-- FALSE for `after_order_id = MaxUint64` in reverse: `afterOrderID + 1` wraps to 0 (orders.go:424), so
-the reverse listing "after the greatest id" returns every order, while the forward one (guarded at
-orders.go:433) returns none.  Replayed on the implementation (known finding C13-after-max-reverse). -/
-theorem after_max_reverse_lists_all :
-    firstIter [(u64Bz 1, .tbyte 0), (u64Bz 2, .tbyte 1)] true 18446744073709551615 =
-      [(u64Bz 2, .tbyte 1), (u64Bz 1, .tbyte 0)] ∧
-    firstIter [(u64Bz 1, .tbyte 0), (u64Bz 2, .tbyte 1)] false 18446744073709551615 = [] := by
+/-- **The after-order bound is exact** — for every `after_order_id` including MaxUint64, both directions —
+on entries whose id is not MaxUint64 (an order with id MaxUint64 would need 2^64 − 1 creations): in the
+iteration range iff the id is greater than `after` (`after = 0`: no bound). -/
+theorem after_bound_exact (ps : List Entry) (rev : Bool) (after : UInt64) (e : Entry) (id : UInt64)
+    (hk : e.1 = u64Bz id) (hid : id ≠ 18446744073709551615) :
+    e ∈ firstIter ps rev after ↔ e ∈ ps ∧ (after = 0 ∨ after < id) := by
+  rw [after_bound ps rev after e id hk]
+  unfold AfterOK
+  constructor
+  · rintro ⟨h, h1 | h1 | ⟨_, h1⟩⟩
+    · exact ⟨h, Or.inl h1⟩
+    · exact ⟨h, Or.inr h1⟩
+    · exact absurd h1 hid
+  · rintro ⟨h, h1 | h1⟩
+    · exact ⟨h, Or.inl h1⟩
+    · exact ⟨h, Or.inr (Or.inl h1)⟩
+
+/-- `after_order_id = MaxUint64` now lists nothing (no order has id MaxUint64 here), in both directions -/
+example : firstIter [(u64Bz 1, .tbyte 0), (u64Bz 2, .tbyte 1)] true 18446744073709551615 = [] ∧
+    firstIter [(u64Bz 1, .tbyte 0), (u64Bz 2, .tbyte 1)] false 18446744073709551615 = [] := by decide
+
+/-- BEFORE THE FIX (commit 9462d3706, `getOrderIteratorPreFix`): in reverse `afterOrderID + 1` wrapped to 0
+for `after_order_id = MaxUint64`, so the reverse listing "after the greatest id" returned every order
+while the forward one returned none (finding C13-after-max-reverse, now fixed). -/
+theorem after_max_reverse_lists_all_before_fix :
+    (getOrderIteratorPreFix [(u64Bz 1, .tbyte 0), (u64Bz 2, .tbyte 1)] none true 18446744073709551615).toOption =
+      some [(u64Bz 2, .tbyte 1), (u64Bz 1, .tbyte 0)] ∧
+    (getOrderIteratorPreFix [(u64Bz 1, .tbyte 0), (u64Bz 2, .tbyte 1)] none false 18446744073709551615).toOption =
+      some [] ∧
+    (getOrderIterator [(u64Bz 1, .tbyte 0), (u64Bz 2, .tbyte 1)] none true 18446744073709551615).toOption =
+      some [] := by
   decide
 
 /-- non-vacuity of the paging theorems: three entries, limit 1 and 2, both directions, type filter -/
@@ -630,17 +652,17 @@ example : (collectByOffset [(u64Bz 1, .tbyte 0), (u64Bz 2, .tbyte 1), (u64Bz 5, 
 
 
 /-- **The paged by-market lookup, end to end**: on a store satisfying the invariant, for every limit ≥ 1,
-order-type filter, after-order bound below MaxUint64 and direction, following `next_key` through the
+order-type filter, after-order bound and direction, following `next_key` through the
 market index returns entries `L` with: an entry is in `L` iff it is the market-index entry of an open
-order of that market with the requested type and an id above the bound — each once (`L` has pairwise
+order of that market with the requested type and an id above the bound (`AfterOK`) — each once (`L` has pairwise
 different keys), ascending by id or descending. -/
 theorem byMarket_paged_exact {s : Store} (hinv : IndexInv s) (m : UInt32) (limit : Nat) (hl : 1 ≤ limit)
-    (rev : Bool) (after : UInt64) (hmax : after ≠ 18446744073709551615) (filter : Option Nat) :
+    (rev : Bool) (after : UInt64) (filter : Option Nat) :
     ∃ L, collectByKey (prefixStore s (prefixMarketToOrder m)) limit rev after (indexHit filter)
         ((prefixStore s (prefixMarketToOrder m)).length + 1) none = .ok L ∧
       L.Pairwise (fun a b => a.1 ≠ b.1) ∧
       ∀ e, e ∈ L ↔ ∃ o, s.get (keyOrder o.id) = some (.order o) ∧ o.market = m ∧
-        e = (u64Bz o.id, .tbyte o.tb) ∧ (∀ b, filter = some b → o.tb = b) ∧ (after = 0 ∨ after < o.id) := by
+        e = (u64Bz o.id, .tbyte o.tb) ∧ (∀ b, filter = some b → o.tb = b) ∧ AfterOK after o.id := by
   have hh := (indexInvF_iff.mp hinv).1
   have hs := sorted_prefixStore s (prefixMarketToOrder m)
   refine ⟨_, pages_partition_key _ hs limit hl rev after (indexHit filter)
@@ -672,16 +694,17 @@ theorem byMarket_paged_exact {s : Store} (hinv : IndexInv s) (m : UInt32) (limit
       · intro b hb
         subst hb he
         have : o.tb = b ∧ (parseIndexKeySuffixOrderID (u64Bz o.id)).isSome = true := by
-          simpa [indexHit] using hhit
+          simpa [indexHit, indexHitPreFix, u64Bz_length] using hhit
         exact this.1
-      · exact ((after_bound_exact _ rev after hmax e o.id hkk.2).mp hmem).2
+      · exact ((after_bound _ rev after e o.id hkk.2).mp hmem).2
     · rintro ⟨o, ho, rfl, rfl, hf, ha⟩
       have hps : (u64Bz o.id, Val.tbyte o.tb) ∈ prefixStore s (prefixMarketToOrder o.market) := by
         rw [mem_prefixStore]
         exact hh.indexed o.id o ho _ (mem_orderIndexEntries.mpr (Or.inl rfl))
-      refine ⟨(after_bound_exact _ rev after hmax _ o.id rfl).mpr ⟨hps, ha⟩, ?_⟩
-      unfold indexHit
-      simp only [parseIndexKeySuffixOrderID_u64Bz, Option.isSome_some, Bool.and_true]
+      refine ⟨(after_bound _ rev after _ o.id rfl).mpr ⟨hps, ha⟩, ?_⟩
+      unfold indexHit indexHitPreFix
+      simp only [parseIndexKeySuffixOrderID_u64Bz, Option.isSome_some, Bool.and_true, u64Bz_length, decide_true,
+        Bool.true_and]
       cases filter with
       | none => rfl
       | some b => simp [hf b rfl]
